@@ -14,6 +14,7 @@ import (
 	authtypes "github.com/cosmos/cosmos-sdk/x/auth/types"
 	vestingtypes "github.com/cosmos/cosmos-sdk/x/auth/vesting/types"
 	"github.com/cosmos/cosmos-sdk/x/authz"
+	"github.com/ethereum/go-ethereum/common"
 	banktypes "github.com/cosmos/cosmos-sdk/x/bank/types"
 	ethcrypto "github.com/ethereum/go-ethereum/crypto"
 
@@ -87,13 +88,24 @@ var vUnits = map[string]int64{"s0": 3, "s1": 1, "s2": 0}
 
 // NewVWorld builds the genesis.
 func NewVWorld() *VWorld {
-	w := &VWorld{Accts: map[string]*chain.Acct{}, Names: []string{"s0", "s1", "s2", "t0", "t1"},
+	w := &VWorld{Accts: map[string]*chain.Acct{}, Names: []string{"s0", "s1", "s2", "t0", "t1", "z0", "zf", "zm", "zp"},
 		Other: chain.NewAcct("vauth-other"), Peer: chain.NewAcct("vauth-peer"),
 		Cost: big.NewInt(vauthkeeper.CostSubmitProofExternalOwnedAccount)}
 	o := chain.DefaultOpts()
 	o.NAccts = 2
 	o.Bal2 = 0
+	// addresses nobody holds a key for
+	keyless := map[string]common.Address{
+		"z0": {},
+		"zf": common.HexToAddress("0xffffffffffffffffffffffffffffffffffffffff"),
+		"zm": chain.GovModule,
+		"zp": common.HexToAddress("0xCc02000000000000000000000000000000000002"), // the staking custom precompile
+	}
 	for _, n := range w.Names {
+		if addr, ok := keyless[n]; ok {
+			w.Accts[n] = &chain.Acct{Name: "vauth-" + n, Addr: addr}
+			continue
+		}
 		a := chain.NewAcct("vauth-" + n)
 		w.Accts[n] = a
 		if u, ok := vUnits[n]; ok {
@@ -119,12 +131,25 @@ func splitUnits(b *big.Int, cost *big.Int) (q, r int64) {
 	return trace.I(qq), trace.I(rr)
 }
 
-// sigBytes returns the raw signature of a kind offered for target t (nil when the kind is not a byte string).
-func (w *VWorld) sigBytes(kind string, t *chain.Acct) []byte {
-	valid := SignProof(t, vauthtypes.MessageToSign)
+// sigBytes returns the raw signature of a kind offered for target t (nil when the kind is not a byte string). The
+// kinds derived from "the target's signature" are derived from the submitter's (signer's) signature when nobody holds
+// a key for t.
+func (w *VWorld) sigBytes(kind string, t, signer *chain.Acct) []byte {
+	base := t
+	if t.Priv == nil {
+		base = signer
+	}
+	valid := SignProof(base, vauthtypes.MessageToSign)
+	withV := func(v byte) []byte {
+		out := append([]byte{}, valid...)
+		out[64] = v
+		return out
+	}
 	switch kind {
 	case "valid", "upper", "noprefix":
 		return valid
+	case "bysub":
+		return SignProof(signer, vauthtypes.MessageToSign)
 	case "valid2":
 		n := ethcrypto.S256().Params().N
 		s := new(big.Int).SetBytes(valid[32:64])
@@ -136,13 +161,37 @@ func (w *VWorld) sigBytes(kind string, t *chain.Acct) []byte {
 		out[64] ^= 1
 		return out
 	case "v27":
+		return withV(valid[64] + 27)
+	case "vflip":
+		return withV(valid[64] ^ 1)
+	case "vp2":
+		return withV(valid[64] + 2)
+	case "vp4":
+		return withV(valid[64] + 4)
+	case "vx27":
+		return withV((valid[64] ^ 1) + 27)
+	case "vp31":
+		return withV(valid[64] + 31)
+	case "zero65":
+		return make([]byte, 65)
+	case "ff65":
+		return bytes.Repeat([]byte{0xff}, 65)
+	case "r0":
 		out := append([]byte{}, valid...)
-		out[64] += 27
+		copy(out[0:32], make([]byte, 32))
+		return out
+	case "s0":
+		out := append([]byte{}, valid...)
+		copy(out[32:64], make([]byte, 32))
 		return out
 	case "otherkey":
 		return SignProof(w.Other, vauthtypes.MessageToSign)
 	case "othermsg":
-		return SignProof(t, vauthtypes.MessageToSign+"2")
+		return SignProof(base, vauthtypes.MessageToSign+"2")
+	case "otherchain":
+		return SignProof(base, vauthtypes.MessageToSign+"/"+chain.ChainID)
+	case "eip191":
+		return SignProof(base, fmt.Sprintf("\x19Ethereum Signed Message:\n%d%s", len(vauthtypes.MessageToSign), vauthtypes.MessageToSign))
 	case "random":
 		h1 := ethcrypto.Keccak256([]byte("random-signature-r/" + t.Name))
 		h2 := ethcrypto.Keccak256([]byte("random-signature-s/" + t.Name))
@@ -157,18 +206,18 @@ func (w *VWorld) sigBytes(kind string, t *chain.Acct) []byte {
 }
 
 // sigString is what goes into the message's signature field.
-func (w *VWorld) sigString(kind string, t *chain.Acct) string {
+func (w *VWorld) sigString(kind string, t, signer *chain.Acct) string {
 	switch kind {
 	case "upper":
-		return "0x" + strings.ToUpper(hex.EncodeToString(w.sigBytes(kind, t)))
+		return "0x" + strings.ToUpper(hex.EncodeToString(w.sigBytes(kind, t, signer)))
 	case "noprefix":
-		return hex.EncodeToString(w.sigBytes(kind, t))
+		return hex.EncodeToString(w.sigBytes(kind, t, signer))
 	case "nothex":
-		return "0xzz" + hex.EncodeToString(w.sigBytes("valid", t))[2:]
+		return "0xzz" + hex.EncodeToString(w.sigBytes("valid", t, signer))[2:]
 	case "empty":
 		return "0x"
 	}
-	b := w.sigBytes(kind, t)
+	b := w.sigBytes(kind, t, signer)
 	if b == nil {
 		infra("unknown signature kind %q", kind)
 	}
@@ -227,8 +276,11 @@ func (w *VWorld) proofToken(ctx sdk.Context, name string) string {
 	if err != nil {
 		return "corrupt"
 	}
+	if a.Priv == nil {
+		return "forged" // nobody holds a key for this address: whatever is stored was not signed by its key
+	}
 	for _, kind := range []string{"valid", "valid2", "v27"} {
-		if bytes.Equal(bz, w.sigBytes(kind, a)) {
+		if bytes.Equal(bz, w.sigBytes(kind, a, nil)) {
 			return kind
 		}
 	}
@@ -242,6 +294,8 @@ func (w *VWorld) kindOf(ctx sdk.Context, name string) string {
 		return "none"
 	case *authtypes.BaseAccount:
 		return "base"
+	case *authtypes.ModuleAccount:
+		return "module"
 	case *vestingtypes.ContinuousVestingAccount:
 		return "vest1"
 	case *vestingtypes.PeriodicVestingAccount:
@@ -305,7 +359,7 @@ func (w *VWorld) Exec(o VOp) trace.M {
 		if strings.HasPrefix(o.Sig, "L_") {
 			account, sig = w.longAccount(o.Sig, signer, t)
 		} else {
-			sig = w.sigString(o.Sig, t)
+			sig = w.sigString(o.Sig, t, signer)
 		}
 		msgs = []sdk.Msg{&vauthtypes.MsgSubmitProofExternalOwnedAccount{Submitter: signer.Acc().String(), Account: account, Signature: sig}}
 	case "Create":
@@ -362,7 +416,7 @@ func (w *VWorld) Exec(o VOp) trace.M {
 			msgs = []sdk.Msg{m}
 		case o.Route == "sametx":
 			msgs = []sdk.Msg{&vauthtypes.MsgSubmitProofExternalOwnedAccount{Submitter: signer.Acc().String(), Account: to.Acc().String(),
-				Signature: w.sigString("valid", to)}, vm}
+				Signature: w.sigString("valid", to, signer)}, vm}
 		default:
 			infra("unknown route %q", o.Route)
 		}
